@@ -9,6 +9,16 @@ LOADED = {}      # module name -> (path, sha256 of source)
 _NOHOOK_NAMES = {"super", "locals", "globals", "vars", "dir", "eval", "exec", "__import__"}
 
 
+def _load(expr):
+    """the same expression in Load context"""
+    import copy
+    e = copy.deepcopy(expr)
+    for x in ast.walk(e):
+        if hasattr(x, "ctx"):
+            x.ctx = ast.Load()
+    return e
+
+
 class Tx(ast.NodeTransformer):
     def visit_Call(self, n):
         self.generic_visit(n)
@@ -56,8 +66,18 @@ class Tx(ast.NodeTransformer):
             if isinstance(t, ast.Subscript) and not isinstance(t.slice, ast.Slice):
                 out.append(ast.copy_location(ast.Expr(ast.Call(ast.Name("__sx_delitem__", ast.Load()), [t.value, t.slice], [])), n))
             else:
+                if isinstance(t, ast.Subscript):
+                    # del x[a:b]: a write access to x (for the access observer); the statement itself is unchanged
+                    out.append(ast.copy_location(ast.Expr(ast.Call(ast.Name("__sx_touch__", ast.Load()), [_load(t.value), ast.Constant("w")], [])), n))
                 out.append(ast.copy_location(ast.Delete([t]), n))
         return out
+
+    def visit_AugAssign(self, n):
+        self.generic_visit(n)
+        if isinstance(n.target, (ast.Name, ast.Attribute)):
+            # x += y mutates x in place when x is a container
+            return [ast.copy_location(ast.Expr(ast.Call(ast.Name("__sx_touch__", ast.Load()), [_load(n.target), ast.Constant("w")], [])), n), n]
+        return n
 
     def visit_BinOp(self, n):
         self.generic_visit(n)
@@ -106,7 +126,7 @@ def sx_strfn(fn):
 
 HOOKS = dict(__sx_strfn__=sx_strfn, __sx_call__=hooks.sx_call, __sx_in__=hooks.sx_in, __sx_getitem__=hooks.sx_getitem,
              __sx_setitem__=hooks.sx_setitem, __sx_delitem__=hooks.sx_delitem, __sx_mod__=hooks.sx_mod,
-             __sx_iter__=sx_iter, __sx_reraise__=hooks.sx_reraise)
+             __sx_iter__=sx_iter, __sx_reraise__=hooks.sx_reraise, __sx_touch__=hooks.sx_touch)
 
 
 def instrument_source(src, path):
